@@ -116,8 +116,9 @@ Write(var, r, it) ==
        ELSE [s |-> [e.s EXCEPT !.items = Append(@, it), !.cl = 0 - 1, !.frozen = FALSE, !.pure = FALSE],
              exc |-> "", ret |-> [R0 EXCEPT !.k = "int", !.n = Len(it.v)], ev |-> r.ev \o e.ev]
 
-Unpicklable(s) == \/ \E j \in 1..Len(s.oncl) : s.oncl[j].t = "src" /\ s.its[s.oncl[j].id].gen
-                  \/ ~s.seq /\ s.its[s.src].gen
+\* pickle refuses a generator and a bound method of one; deepcopy refuses the generator, shares the method
+Unpicklable(s, k) == \/ k = "pickle" /\ \E j \in 1..Len(s.oncl) : s.oncl[j].t = "src" /\ s.its[s.oncl[j].id].gen
+                     \/ ~s.seq /\ s.its[s.src].gen
 
 Step(var, s, op) ==
   CASE op.o \in {"get_data", "data_get"} ->
@@ -191,7 +192,7 @@ Step(var, s, op) ==
     [] op.o = "force_type" -> [Res([s EXCEPT !.cls = "Sub"]) EXCEPT !.ret = [R0 EXCEPT !.k = "same", !.b = TRUE]]
     [] op.o = "copy" ->
          \* pickle round trip (k = "pickle") or copy.deepcopy (k = "deepcopy"); the harness' own objects are picklable
-         IF Unpicklable(s) THEN Exc(s, "TypeError")
+         IF Unpicklable(s, op.k) THEN Exc(s, "TypeError")
          ELSE IF s.seq THEN [Res(s) EXCEPT !.ret = [R0 EXCEPT !.k = "copy", !.b = TRUE, !.by = BytesOf(s.items)]]
          ELSE [Res(s) EXCEPT !.ret = [R0 EXCEPT !.k = "any"]]
     [] OTHER -> Res(s)
